@@ -205,7 +205,9 @@ func (s *SourceControl) runLaterIfActive(f func()) error {
 	if !s.isSourceActive {
 		return fmt.Errorf("no source is active")
 	}
+	vpoint("RLIA.checked")
 	s.queuedRequests <- f
+	vpoint("RLIA.sent")
 	return <-s.queuedResults
 }
 
@@ -396,6 +398,7 @@ func (s *SourceControl) Stop(dummy *string, reply *bool) error {
 	}
 	log.Printf("Stopping data source\n")
 	s.ActiveSource.Stop()
+	vpoint("SC.Stop.stopped")
 	s.handlePossibleStoppedSource()
 	s.broadcastStatus()
 	*reply = true
